@@ -45,7 +45,7 @@ ALPHABET = [
     ("window:diff", 1), ("window:same", 0), ("window:invalid", 0), ("window:alias", 0),
     ("lag:diff", 1), ("lag:same", 0), ("lag:out", 1), ("lag:any", 0),
     ("ar_order:diff", 1), ("ar_order:same", 0), ("ar_order:neg", 0), ("ar_order:big", 1), ("ar_order:none", 0),
-    ("ar_order:zero", 0), ("ma_order:zero", 0), ("data:const", 0),
+    ("ar_order:zero", 0), ("ma_order:zero", 0), ("data:const", 0), ("data:zimag", 0), ("plot", 0),
     ("ma_order:diff", 1), ("ma_order:same", 0), ("ma_order:neg", 0), ("ma_order:none", 0),
     ("npscalar:ar_order", 0), ("npscalar:ma_order", 0), ("npscalar:lag", 0), ("npscalar:sampling", 0),
     ("npscalar:scale", 0), ("npscalar:NFFT", 0),
@@ -309,6 +309,13 @@ class Run(object):
             return p.power()
         if k == "str":
             return str(p)
+        if k == "plot":
+            import pylab
+            try:
+                p.plot(norm=op.get("norm", False), sides=op.get("sides"))
+            finally:
+                pylab.close("all")
+            return None
         if k == "set":
             v = op["value"]
             if op["attr"] == "data":
@@ -390,7 +397,7 @@ class Run(object):
 
         if k == "reassign" and exc is None and not fired:
             self.reassigned.append(op["attr"])
-        elif k in ("str", "power", "conv") and exc is None and not fired:
+        elif k in ("str", "power", "conv", "plot") and exc is None and not fired:
             pass                      # observations: keep the remembered psd
         elif k != "read":
             self.last_psd = None
@@ -473,6 +480,18 @@ class Run(object):
             self.sides_expect = None
         if k in ("read", "call", "run", "conv", "power") and exc is None and not fired:
             self.has_psd = True
+
+        # ---- NFFT given as None / 'nextpow2' resolves against the CURRENT data, as it does in a constructor
+        if viol is None and k == "set" and exc is None and op["attr"] == "NFFT" and op["value"] in (None, "nextpow2"):
+            try:
+                with self.plane.oracle():
+                    want = sut.load().Spectrum(np.array(p.data), NFFT=op["value"]).NFFT
+            except Exception:
+                want = None
+            self.bump("nfft_alias_checked")
+            if want is not None and p.NFFT != want:
+                viol = Violation("nfft_alias", idx, "NFFT=%r was accepted and resolved to %r; a fresh object given the same "
+                                 "data and NFFT=%r reports %r" % (op["value"], p.NFFT, op["value"], want))
 
         # ---- an accepted assignment sticks: the object never rewrites an attribute by itself -----
         if k == "set" and exc is None and op["attr"] != "sides":
@@ -642,6 +661,8 @@ def concretize(aname, rng, run):
         return None
     if head in ("read", "call", "run", "str", "power"):
         return {"op": head}
+    if head == "plot":
+        return {"op": "plot", "norm": rng.random() < 0.5, "sides": rng.choice([None, None, "twosided", "centerdc", "onesided"])}
     if head == "conv":
         return {"op": "conv", "sides": parts[1]}
     if head == "inject":
@@ -687,6 +708,8 @@ def concretize(aname, rng, run):
             arr = gen_signal(rng, N + rng.choice([0, 0, 1]), not cplx)
         elif vc == "list":
             return {"op": "set", "attr": "data", "value": enc_data(gen_signal(rng, N, cplx), "list")}
+        elif vc == "zimag":
+            arr = gen_signal(rng, N, False).astype(complex)   # complex dtype, imaginary part identically zero
         elif vc == "const":
             c = rng.choice([1.0, 0.0, -2.5])
             arr = np.full(N, c + 0j if cplx else c)     # degenerate signal: most estimators cannot fit it
@@ -819,6 +842,8 @@ def swarm_weights(rng, cls, mode):
             gw = rng.choice([1.0, 2.0, 3.0])
         if h == "sides":
             gw *= 1.5
+        if h == "plot":
+            gw = 0.12          # matplotlib is slow: a rare observation
         for a in groups[h]:
             w[a] = gw / len(groups[h])
     return w
@@ -1044,6 +1069,8 @@ def describe(cfg, ops):
             out.append("inject(kernel%d,%s%s)" % (o["kernel"], o["when"], "," + o["exc"] if o.get("exc") else ""))
         elif k == "read":
             out.append("psd")
+        elif k == "plot":
+            out.append("plot(norm=%r, sides=%r)" % (o.get("norm"), o.get("sides")))
         else:
             out.append(k + "()")
     head = "%s(%s[%d], %s) %s" % (cfg["cls"], "complex" if cfg["cplx"] else "real", len(cfg["data"]["v"]),
